@@ -33,6 +33,10 @@ pub trait Subject {
     fn outcome(&self) -> String {
         String::new()
     }
+    /// extra measured counters of the last execution (added to the shard statistics)
+    fn counters(&self) -> Vec<(&'static str, u64)> {
+        vec![]
+    }
     /// signature for known-finding matching, from the failure reason
     fn sig(&self, why: &str) -> String {
         why.split(':').next().unwrap_or(why).to_string()
@@ -120,6 +124,9 @@ pub fn explore<S: Subject>(s: &mut S, cfg: &Value, depth: usize, max_dev: usize,
             let nt = x.fail.is_none() && s.nontrivial();
             if nt {
                 stats.nontrivial += 1;
+            }
+            for (k, v) in s.counters() {
+                stats.bump(k, v);
             }
             let o = s.outcome();
             if !o.is_empty() {
